@@ -368,11 +368,11 @@ CHECKS['C07'] = dict(
     level=MC, engine='bfs',
     technique='explicit-state breadth-first search over histories of the real fileset (two handles sharing one fileset, real setfile and table files on tmpfs, harness-owned monotonic clock): states deduplicated by a canonical hash of the private fileset fields plus the reference state (if that private view does not compile against the tree: no deduplication, shallower depth); oracle = interval of setfile versions the view may legitimately reflect; AddressSanitizer over every history',
     text='Alphabet: rewrite the setfile to one of eight versions (one with a missing and a non-table file, one with an absolute path, one that still lists a previously loaded file which has meanwhile been deleted from disk, one that names the same file twice - relative and absolute; how often such a file contributes is not judged -, one written after the non-table file of the other version has been replaced by a real table), advance the clock by 1 s or interval+1 s (each also in a variant whose nanosecond part restarts below every earlier reading), and for handles A and B=dup(A, filename/reader filter): reload, reload_now, open an iterator, step it, seek it (thorough), close it, observe (open+drain+close), plus destroy(A) and destroy(B) (thorough). Configurations: reload intervals {2, 0, NEVER} per handle, merge function on/off, cold and warm start. After every open the content (decoded to the set of files it merges) must equal the filtered merge of SOME setfile version between the one current at the latest mandatory reload point (initial load, reload_now, deferred reload_now, interval expired since the last moment a reload could have happened) and the one current at the last moment a reload could have happened at all; never older, and fixed while any iterator is open. Kept iterators must return their original snapshot step by step whatever happens in between.',
-    jobs=[dict(name='fileset-bfs', spec=_FS, args=lambda tier: ['6', '7'] if tier == 'thorough' else ['5'])],
+    jobs=[dict(name='fileset-bfs', spec=_FS, args=lambda tier: ['5', '7'] if tier == 'thorough' else ['5'])],
     states_key='states', transitions_key='transitions', traces_key='executions',
     rule='a state = canonical hash of (shared fileset counters and stamps, my_fileset entries, per-handle stamp equality and merger sources, open iterators, reference interval, capped clock ages); signature = (configuration, first operation)',
     bounds={'quick': 'histories of depth<=5 (plus 2 warm-up operations in warm configurations), 4 configurations, ~21 operations enabled per state (8 setfile versions, 3 clock steps, 5 operations per handle, destroy)',
-            'thorough': 'depth<=6 for all 8 configurations, then depth 7 as far as the budget allows (iterative deepening; maxima.max_depth_completed_by_this_shard in the evidence)'},
+            'thorough': 'full alphabet (also 3 s step with nanosecond reset, seek on kept iterators, destroy(B)): depth<=5 for all 8 configurations, then depth 6 and 7 as far as the budget and the cap of 400000 states per search allow (iterative deepening; maxima.max_depth_completed_by_this_shard, counters.bfs_state_cap_hit and searches_stopped_by_budget in the evidence say how far it got)'},
     nonzero=['states', 'transitions', 'searches'],
     assumptions=['no two readings of the monotonic clock are equal (CLOCK_MONOTONIC has nanosecond resolution and the library reads it around file I/O); the nanosecond part may step backwards', 'distinct setfile versions have distinct (inode, mtime seconds)', 'reloading earlier than required is accepted'],
     budget={'quick': 300, 'thorough': 3000},
